@@ -1,4 +1,104 @@
-import EudoxiaModel.Model.SObs
+import EudoxiaModel.Model.Sched.Overbook
+import EudoxiaModel.Proofs.WorldInv
+/-! # C18 — overbook: one operator and one CPU per container, full-pool RAM, CPU-bound -/
 namespace Eudoxia.C18
-theorem placeholder : True := trivial
+open Eudoxia Eudoxia.Overbook OpState Extracted
+
+/-- the scheduler's CPU snapshot after handing out the assignments `new` -/
+def spend (avail : List Int) (new : List Asg) : List Int := new.foldl (fun av a => av.set a.pool (av.getD a.pool 0 - 1)) avail
+
+theorem firstFree_some {avail : List Int} {k : Nat} (h : firstFree avail = some k) : k < avail.length ∧ avail.getD k 0 ≥ 1 := by
+  unfold firstFree at h
+  have h1 := List.find?_some h
+  have h2 := List.mem_of_find?_eq_some h
+  exact ⟨List.mem_range.mp h2, by simpa using h1⟩
+
+/-- **C18 per round** (`make_assignments`): every container gets exactly one operator, one CPU and a memory limit equal to its pool's whole RAM;
+it goes to a pool that still had a free CPU in the scheduler's snapshot; the operator belongs to a pipeline with fewer than three failed
+containers; and if operators are left in the queue, no pool has a free CPU any more. -/
+theorem assign_spec (fails : List (Nat × Nat)) : ∀ (q : List Nat) (w : World) (avail : List Int) (acc : List Asg) (w' : World) (q' : List Nat) (out : List Asg),
+    assign fails w q avail acc = .ok (w', q', out) →
+    ∃ new, out = acc ++ new ∧
+      (∀ a ∈ new, a.cpu = 1 ∧ (∃ r, a.ops = [r] ∧ r ∈ q ∧ getFail fails (w.store.pidOf r) < maxFailures) ∧
+          a.ram = (w.pools.getD a.pool default).capR) ∧
+      (q' ≠ [] → firstFree (spend avail new) = none) ∧ (∀ k, (spend avail new).getD k 0 ≤ avail.getD k 0) ∧
+      ((∀ k, 0 ≤ avail.getD k 0) → ∀ k, 0 ≤ (spend avail new).getD k 0) := by
+  intro q
+  induction q with
+  | nil =>
+    intro w avail acc w' q' out h
+    simp [assign] at h
+    exact ⟨[], by simp [h.2.2], by simp, by simp [h.2.1], by simp [spend], by simp [spend]⟩
+  | cons r rest ih =>
+    intro w avail acc w' q' out h
+    unfold assign at h
+    split at h
+    · obtain ⟨new, h1, h2, h3, h4, h5⟩ := ih _ _ _ _ _ _ h
+      exact ⟨new, h1, fun a ha => let ⟨x, ⟨r', e1, e2, e3⟩, z⟩ := h2 a ha; ⟨x, ⟨r', e1, List.mem_cons_of_mem _ e2, e3⟩, z⟩, h3, h4, h5⟩
+    · rename_i hlt
+      split at h
+      · cases h
+      · split at h
+        · rename_i hnone
+          simp at h; obtain ⟨_, rfl, rfl⟩ := h
+          exact ⟨[], by simp, by simp, fun _ => by simpa [spend] using hnone, by simp [spend], by simp [spend]⟩
+        · rename_i k hk
+          split at h
+          · cases h
+          · rename_i w1 a1 hmk
+            obtain ⟨ea, hmk'⟩ := mkA_ok hmk
+            obtain ⟨new, h1, h2, h3, h4, h5⟩ := ih _ _ _ _ _ _ h
+            obtain ⟨hk1, hk2⟩ := firstFree_some hk
+            have hset : ∀ j, (avail.set k (avail.getD k 0 - 1)).getD j 0 = if j = k then avail.getD k 0 - 1 else avail.getD j 0 := by
+              intro j
+              by_cases hj : j = k
+              · subst hj; simp [List.getD_eq_getElem?_getD, hk1]
+              · simp [List.getD_eq_getElem?_getD, List.getElem?_set_ne (Ne.symm hj), hj]
+            -- the world changes only in operator states: pools, pipelines and their operator table are the same
+            have hpools : w1.pools = w.pools := (mkAssignment_pools_ok hmk').1
+            have hops : w1.store.ops = w.store.ops := (mkAssignment_steps_ok hmk').ops
+            have hpid : ∀ x, w1.store.pidOf x = w.store.pidOf x := fun x => by simp [Store.pidOf, hops]
+            refine ⟨a1 :: new, by simp [h1], ?_, ?_, ?_, ?_⟩
+            · intro a ha
+              rcases List.mem_cons.mp ha with rfl | ha'
+              · rw [ea]
+                exact ⟨rfl, ⟨r, rfl, by simp, by simpa using hlt⟩, rfl⟩
+              · obtain ⟨x, ⟨r', e1, e2, e3⟩, z⟩ := h2 a ha'
+                exact ⟨x, ⟨r', e1, List.mem_cons_of_mem _ e2, by rw [← hpid]; exact e3⟩, by rw [← hpools]; exact z⟩
+            · intro hq
+              have : spend avail (a1 :: new) = spend (avail.set k (avail.getD k 0 - 1)) new := by
+                simp only [spend, List.foldl_cons, ea]
+              rw [this]; exact h3 hq
+            · intro j
+              have : spend avail (a1 :: new) = spend (avail.set k (avail.getD k 0 - 1)) new := by
+                simp only [spend, List.foldl_cons, ea]
+              rw [this]
+              refine Int.le_trans (h4 j) ?_
+              rw [hset j]
+              by_cases hj : j = k
+              · subst hj; simp only [↓reduceIte]; omega
+              · simp [hj]
+            · intro hnn j
+              have : spend avail (a1 :: new) = spend (avail.set k (avail.getD k 0 - 1)) new := by
+                simp only [spend, List.foldl_cons, ea]
+              rw [this]
+              apply h5
+              intro i
+              rw [hset i]
+              by_cases hi : i = k
+              · subst hi; simp only [↓reduceIte]; omega
+              · simp only [hi, ↓reduceIte]; exact hnn i
+
+/-- overbook never suspends -/
+theorem never_suspends (w w' : World) (st st' : St) (res : List Res) (newP : List Nat) (dec : Decision)
+    (h : round w st res newP = .ok (w', st', dec)) : dec.sus = [] := by
+  unfold round at h
+  split at h
+  · simp at h; rw [← h.2.2]
+  · split at h
+    · cases h
+    · split at h
+      · cases h
+      · simp at h; rw [← h.2.2]
+
 end Eudoxia.C18
